@@ -131,6 +131,12 @@ def check(src, must_return):
         return [], False, ["panic-outside-property"]
     except MemoryError:
         raise
+    except Exception as e:
+        # the binding refused the input with an ordinary Python exception (e.g. UnicodeEncodeError for a str holding an
+        # unpaired surrogate): no result was returned, so the contract says nothing - unless the source had to be accepted
+        if must_return:
+            return [("must-return", f"must-return:exception:{type(e).__name__}", f"the extension raised {type(e).__name__} on a well-formed / real-world source: {e}")], True, ["exception"]
+        return [], False, [f"refused:{type(e).__name__}"]
     try:
         val, end = mp.unpack(raw)
     except Exception as e:
@@ -404,6 +410,9 @@ text_strategy = st.one_of(
     st.lists(st.sampled_from(FRAGS), min_size=1, max_size=14).map("".join),
     st.text(alphabet=st.one_of(st.sampled_from(list("abAB01_ ;%&'\"()=,*/.\n\t")), st.characters(blacklist_categories=("Cs",))), max_size=40),
     st.lists(st.one_of(st.sampled_from(FRAGS), st.text(max_size=3)), min_size=1, max_size=10).map("".join),
+    # Python strings can hold unpaired surrogates (files read with errors="surrogateescape"): the binding may refuse
+    # them, but a result it returns must still be positioned in the caller's str
+    st.lists(st.one_of(st.sampled_from(FRAGS), st.characters(min_codepoint=0xD800, max_codepoint=0xDFFF, categories=("Cs",))), min_size=1, max_size=8).map("".join),
 )
 
 
@@ -454,7 +463,7 @@ def write_replay(src, rule, sig, msg, origin):
     h = hashlib.sha1((sig + "|" + src).encode("utf-8", "surrogatepass")).hexdigest()[:16]
     p = os.path.join(d, f"C20-{h}.json")
     json.dump({"property": "C20", "rule": rule, "signature": sig, "message": msg, "found_by": origin, "seed": seed,
-               "case": {"kind": "text", "texts": [src], "bytes_hex": "", "n": 1 if origin != "text" else 0, "gen": origin}}, open(p, "w", encoding="utf-8"), ensure_ascii=False, indent=1)
+               "case": {"kind": "text", "texts": [src], "bytes_hex": "", "n": 1 if origin != "text" else 0, "gen": origin}}, open(p, "w", encoding="utf-8"), ensure_ascii=True, indent=1)
     return p
 
 
